@@ -230,6 +230,19 @@ func init() {
 			ex.lockHook = args[0]
 			return nil
 		},
+		// vsTrack(p, name): accesses to the fields of the object p points to are logged with the locks held
+		"vsTrack": func(ex *Exec, st *State, fn *ssa.Function, args []Value, site ssa.Instruction) Value {
+			name := ex.argString(st, args[1])
+			if ic, ok := args[0].(*IfaceC); ok {
+				if pc, ok := ic.V.(*PtrC); ok && pc.Obj != 0 {
+					if ex.tracked == nil {
+						ex.tracked = map[int]string{}
+					}
+					ex.tracked[pc.Obj] = name
+				}
+			}
+			return nil
+		},
 		"vsPanicsOff": func(ex *Exec, st *State, fn *ssa.Function, args []Value, site ssa.Instruction) Value {
 			return nil
 		},
